@@ -155,7 +155,8 @@ package driver
 //@   mustcall generateTagRootsLeaves tagroots: $arg0 == p when $res2 == nil
 //@   mustcall New report: $arg0 == p when $res2 == nil
 //@   callsite applyFocus same_profile: $arg0 == p && $arg1 == numLabelUnits
-//@   callsite aggregate same_profile: $arg0 == p
+//@   callsite aggregate same_profile: $arg0 == p && called(filtered) && called(report)
+//@   callsite New after_relative_focus: relative ==> called(filtered)
 
 // ---- C19: readSettings — every configuration read from the file has its transient fields reset, in place (one call per
 // list element, on that element) ----
